@@ -9,19 +9,20 @@ import numpy as np, z3
 ATTRS = {"no_data_img": -9999, "valid_pixels": 0, "no_data_mask": 1, "crs": None, "transform": None}
 
 # structure variants of one dataset: name -> (mutator description, well_formed?)
-VARIANTS = ['ok', 'ok-multiband', 'ok-with-msk', 'no-im', 'band-names-int', 'msk-other-shape', 'classif-other-shape',
+VARIANTS = ['ok', 'ok-multiband', 'ok-with-msk', 'no-im', 'band-names-int', 'band-names-mixed', 'band-names-none', 'band-names-object-str', 'msk-other-shape', 'classif-other-shape',
             'missing-attr-crs', 'missing-attr-no_data_img', 'missing-attr-valid_pixels', 'missing-attr-no_data_mask', 'missing-attr-transform',
             'disp-without-band_disp', 'disp-bands-renamed']
 
 
 def _make(xr, S, name, rows, cols, variant, with_disp, syms):
-    bands = 2 if variant in ('ok-multiband', 'band-names-int') else 0
+    bands = 2 if variant in ('ok-multiband', 'band-names-int', 'band-names-mixed', 'band-names-none', 'band-names-object-str') else 0
     shape = (bands, rows, cols) if bands else (rows, cols)
     im = S.fresh_array(name + 'im', shape, 'f4'); syms[name + 'im'] = (shape, 'f4')
     dims = (["band_im", "row", "col"] if bands else ["row", "col"])
     coords = {"row": np.arange(rows), "col": np.arange(cols)}
     if bands:
-        coords["band_im"] = ["r", "g"] if variant != 'band-names-int' else [1, 2]
+        coords["band_im"] = {'band-names-int': [1, 2], 'band-names-mixed': np.array(["r", 1], dtype=object), 'band-names-none': np.array([None, None], dtype=object),
+                             'band-names-object-str': np.array(["r", "g"], dtype=object)}.get(variant, ["r", "g"])
     ds = xr.Dataset({"im": (dims, im)}, coords=coords)
     ds.attrs = dict(ATTRS)
     well = True
@@ -40,7 +41,7 @@ def _make(xr, S, name, rows, cols, variant, with_disp, syms):
         ds["msk"] = xr.DataArray(np.zeros((rows, cols), np.int16), dims=["row", "col"])
     if variant == 'no-im':
         ds = ds.drop_vars("im"); well = False
-    if variant == 'band-names-int':
+    if variant in ('band-names-int', 'band-names-mixed', 'band-names-none'):
         well = False
     if variant == 'msk-other-shape':
         ds["msk"] = xr.DataArray(np.zeros((rows + 1, cols), np.int16), dims=["row2", "col"]); well = False
